@@ -209,9 +209,9 @@ pub fn gen_content(rng: &mut Rng, p: &GenParams, budget: usize) -> Vec<u8> {
 
 pub fn default_entry(rng: &mut Rng, kind: Kind, now_s: i64) -> Entry {
     let mode = match &kind {
-        Kind::Dir => *rng.pick(&[0o755, 0o700, 0o775, 0o555 | 0o200]),
+        Kind::Dir => *rng.pick(&[0o755, 0o700, 0o775, 0o555 | 0o200, 0o755, 0o2775, 0o1777]),
         Kind::Symlink(_) => 0o777,
-        _ => *rng.pick(&[0o644, 0o600, 0o755, 0o444, 0o640, 0o4755 & 0o777]),
+        _ => *rng.pick(&[0o644, 0o600, 0o755, 0o444, 0o640, 0o755, 0o644, 0o4755, 0o2755, 0o6711]),
     };
     let m = now_s - rng.range(0, 400 * 86400) as i64;
     let nanos = *rng.pick(&[0, 0, 1, 500_000_000, 999_999_999, 123_456_789]);
@@ -475,7 +475,8 @@ pub fn node_of(name: &[u8], e: &Entry) -> Node {
         _ => 0,
     };
     let meta = Metadata {
-        mode: Some(e.mode),
+        // node modes use Go's io/fs layout (restic compatibility), as LocalSource produces them
+        mode: Some(mode_to_go(e.mode, &e.kind)),
         mtime: ts(e.mtime),
         atime: ts(e.mtime),
         ctime: ts(e.ctime),
@@ -490,6 +491,50 @@ pub fn node_of(name: &[u8], e: &Entry) -> Node {
         extended_attributes: vec![],
     };
     Node::new_node(OsStr::from_bytes(name), node_type, meta)
+}
+
+const GO_MODE_DIR: u32 = 1 << 31;
+const GO_MODE_SYMLINK: u32 = 1 << 27;
+const GO_MODE_FIFO: u32 = 1 << 25;
+const GO_MODE_SETUID: u32 = 1 << 23;
+const GO_MODE_SETGID: u32 = 1 << 22;
+const GO_MODE_STICKY: u32 = 1 << 20;
+
+/// POSIX permission + special bits and entry kind -> Go io/fs mode (own implementation, the
+/// library's mapper is not used here)
+pub fn mode_to_go(mode: u32, kind: &Kind) -> u32 {
+    let mut g = mode & 0o777;
+    g |= match kind {
+        Kind::Dir => GO_MODE_DIR,
+        Kind::Symlink(_) => GO_MODE_SYMLINK,
+        Kind::Fifo => GO_MODE_FIFO,
+        Kind::File(_) => 0,
+    };
+    if mode & 0o4000 != 0 {
+        g |= GO_MODE_SETUID;
+    }
+    if mode & 0o2000 != 0 {
+        g |= GO_MODE_SETGID;
+    }
+    if mode & 0o1000 != 0 {
+        g |= GO_MODE_STICKY;
+    }
+    g
+}
+
+/// Go io/fs mode -> POSIX permission + special bits (0o7777)
+pub fn perm_from_go(g: u32) -> u32 {
+    let mut m = g & 0o777;
+    if g & GO_MODE_SETUID != 0 {
+        m |= 0o4000;
+    }
+    if g & GO_MODE_SETGID != 0 {
+        m |= 0o2000;
+    }
+    if g & GO_MODE_STICKY != 0 {
+        m |= 0o1000;
+    }
+    m
 }
 
 pub struct SimOpen {
